@@ -99,6 +99,11 @@ def _alphabet() -> list[L]:
         ("Run Time > 0.01 min", "s-tag:min"),
         ("Run Time > 500 ms", "s-tag:ms"),
         ("Run Counter > 0", "system-unitless-tag:no-unit"),
+        ("Conc > 5 vol%", "vol%-tag:vol%"),
+        ("Conc > 5 %", "vol%-tag:%"),
+        ("Conc > 5 wt%", "vol%-tag:wt%"),
+        ("Pct > 5 %", "%-tag:%"),
+        ("Pct > 5 vol%", "%-tag:vol%"),
         ("Nope > 1", "undefined-tag"),
         ("Tamp > 1 degC", "near-miss-tag"),
     ]
